@@ -211,6 +211,11 @@ impl Story {
         let paused_in_lookahead =
             self.async_continue_active && self.state_snapshot_at_last_new_line.is_some();
 
+        // What this call returns. A continue that fails for want of an error
+        // handler has still run: the variables it changed are committed, and
+        // their observers are told below before the error is handed back.
+        let mut outcome = Ok(());
+
         if !paused_in_lookahead && (self.get_state().has_error() || self.get_state().has_warning())
         {
             match &self.on_error {
@@ -257,7 +262,7 @@ impl Story {
                         }
                         sb.push_str(". It is strongly suggested that you assign an error handler to story.onError. The first issue was: ");
                         sb.push_str(self.get_state().get_current_errors()[0].as_str());
-                        return Err(StoryError::InvalidStoryState(sb));
+                        outcome = Err(StoryError::InvalidStoryState(sb));
                     }
                     // Only warnings and no handler: they never make the continue
                     // fail and stay readable through `get_current_warnings()`.
@@ -272,7 +277,7 @@ impl Story {
             }
         }
 
-        Ok(())
+        outcome
     }
 
     pub(crate) fn continue_single_step(&mut self) -> Result<bool, StoryError> {
